@@ -222,7 +222,8 @@ class PseudoOperand(Operand):
         elif instruction.is_multi_word:
             self.value = MultiWordValue(operand_string) if "," in operand_string else Value.create_from_str(operand_string, instruction)
         else:
-            self.value = NoneValue() if instruction.is_include or not operand_string \
+            optional = not (instruction.is_pseudo_define or instruction.is_string_define)
+            self.value = NoneValue() if instruction.is_include or (optional and not operand_string) \
                 else Value.create_from_str(operand_string, instruction)
 
         if instruction.is_pseudo_define:
